@@ -13,7 +13,7 @@ some callbacks raise.
 import json
 
 PROPS = ('C19',)
-RACE_PROBES = ('parent_deleted_with_members', 'parent_recreated', 'name_recurred', 'callback_raised',
+RACE_PROBES = ('relisting', 'parent_deleted_with_members', 'parent_recreated', 'name_recurred', 'callback_raised',
                'member_vanished_during_read', 'notification_before_listing', 'burst')
 SHRINK_KEYS = ('ops',)
 
@@ -37,8 +37,10 @@ def generate(rng, tier='quick', **kw):
       ops.append({'t': round(t, 6), 'op': 'add'})
     elif k < 0.78:
       ops.append({'t': round(t, 6), 'op': 'del', 'which': rng.randrange(8)})
-    elif k < 0.84:
+    elif k < 0.80:
       ops.append({'t': round(t, 6), 'op': 'other'})
+    elif k < 0.86:
+      ops.append({'t': round(t, 6), 'op': 'list'})       # somebody else lists the members again
     elif k < 0.92:
       ops.append({'t': round(t, 6), 'op': 'rmparent'})
     else:
@@ -86,6 +88,7 @@ def run(scn):
   log = []            # (time, 'join'|'leave', member name, endpoint)
   view = {}
   listed = Event()
+  listed_eps = set()
   counter = [0]
   raise_every = scn.get('raise_every', 0)
 
@@ -111,8 +114,18 @@ def run(scn):
     members = provider.GetServers()
     for m in members:
       view[(m.service_endpoint.host, m.service_endpoint.port)] = m.name
+      listed_eps.add((m.service_endpoint.host, m.service_endpoint.port))
     loop.note('zk.listed', str(len(members)))
     listed.set()
+
+  def relist():
+    # the consumer pre-populates again from a fresh listing (merged the same way)
+    for m in provider.GetServers():
+      ep = (m.service_endpoint.host, m.service_endpoint.port)
+      if ep not in view:
+        view[ep] = m.name
+      listed_eps.add(ep)
+    loop.note('zk.relisted', '')
   g = gevent.spawn(consumer)
   base = CLOCK.now
   last = None
@@ -134,6 +147,10 @@ def run(scn):
         del present[name]
         if client.rpcs and any(True for _ in client._c2s):
           REC.probe('member_vanished_during_read')
+    elif k == 'list':
+      if listed.is_set():
+        REC.probe('relisting')
+        gevent.spawn(relist)
     elif k == 'other':
       if srv._find(PATH) is not None:
         try:
@@ -177,10 +194,17 @@ def run(scn):
         if op['t'] - t_rm < 6 * lat + 1e-3:
           fast = True
         t_rm = None
+    cause = 'path_recreated_within_watch_round_trip' if fast else 'other'
+    if not fast and not (want - have):
+      # every stale member came from the initial listing and the watch path
+      # never announced it (it vanished before the notification worker read it)
+      joined = set(ep for _, kind, _, ep in log if kind == 'join')
+      if all(ep in listed_eps and ep not in joined for ep in (have - want)):
+        cause = 'listed_member_never_registered'
     REC.violation('C19', 'view_mismatch',
                   'members present %s; consumer holds %s (missing %s, stale %s)' % (
                     sorted(want), sorted(have), sorted(want - have), sorted(have - want)),
-                  {'cause': 'path_recreated_within_watch_round_trip' if fast else 'other'})
+                  {'cause': cause})
   per = {}
   for t, kind, name, ep in log:
     seq = per.setdefault((name, ep), [])
